@@ -111,21 +111,27 @@ def dddmpAssertConsistent (f : DddmpFile) : Except Err Unit := do
 def enumDict (l : List Tok) : List (Tok × Int) :=
   dictOf (l.zipIdx.map fun (var, k) => (var, (k : Int)))
 
-/-- the `info2permid` table of `_parse_header` (with the entry for `'T'`) -/
-def dddmpInfo2permid (f : DddmpFile) (ids permids : List Int) : Except Err (List (Tok × Int)) := do
-  let t ← match f.varinfo with
-    | some 0 => pure (dictOf ((ids.zip permids).map fun (i, k) => (Tok.num i, k)))
-    | some 1 => pure (dictOf (permids.map fun k => (Tok.num k, k)))
-    | some 2 => throw Err.notImplemented
-    | some 3 =>
-      match f.orderedvarnames with
-      | none => throw Err.type          -- `enumerate(None)`
-      | some ov => pure (enumDict ov)
-    | some 4 => throw Err.notImplemented
-    | _ => throw Err.other              -- `Exception('unknown varinfo case')`
-  match f.nvars with
-  | none => throw .type                 -- `None + 1`
-  | some n => pure (dictSet t (.str "T") (n + 1))
+/-- the `info2permid` table of `_parse_header`, by `.varinfo` case -/
+def dddmpInfoTable (f : DddmpFile) (ids permids : List Int) : Except Err (List (Tok × Int)) :=
+  match f.varinfo with
+  | some 0 => pure (dictOf ((ids.zip permids).map fun (i, k) => (Tok.num i, k)))
+  | some 1 => pure (dictOf (permids.map fun k => (Tok.num k, k)))
+  | some 2 => throw Err.notImplemented
+  | some 3 =>
+    match f.orderedvarnames with
+    | none => throw Err.type          -- `enumerate(None)`
+    | some ov => pure (enumDict ov)
+  | some 4 => throw Err.notImplemented
+  | _ => throw Err.other              -- `Exception('unknown varinfo case')`
+
+/-- ... with the entry for `'T'` -/
+def dddmpInfo2permid (f : DddmpFile) (ids permids : List Int) : Except Err (List (Tok × Int)) :=
+  match dddmpInfoTable f ids permids with
+  | .error e => .error e
+  | .ok t =>
+    match f.nvars with
+    | none => .error .type              -- `None + 1`
+    | some n => .ok (dictSet t (.str "T") (n + 1))
 
 /-- the `levels` table of `_parse_header` -/
 def dddmpLevels (f : DddmpFile) (permids : List Int) : Except Err (List (Tok × Int)) :=
@@ -145,20 +151,19 @@ def dddmpLevels (f : DddmpFile) (permids : List Int) : Except Err (List (Tok × 
 
 /-- `Parser._parse_header` after the LALR parse: `(info2permid, levels, roots)` -/
 def dddmpHeader (f : DddmpFile) :
-    Except Err (List (Tok × Int) × List (Tok × Int) × List Int) := do
-  dddmpAssertConsistent f
-  let ids ← match f.ids with
-    | some l => pure l
-    | none => throw Err.type
-  let permids ← match f.permids with
-    | some l => pure l
-    | none => throw Err.type
-  let i2p ← dddmpInfo2permid f ids permids
-  let levels ← dddmpLevels f permids
-  let roots ← match f.rootids with
-    | some l => pure (dedupInts l)
-    | none => throw Err.type
-  pure (i2p, levels, roots)
+    Except Err (List (Tok × Int) × List (Tok × Int) × List Int) :=
+  match dddmpAssertConsistent f with
+  | .error e => .error e
+  | .ok _ =>
+    match f.ids, f.permids, f.rootids with
+    | some ids, some permids, some rootids =>
+      match dddmpInfo2permid f ids permids with
+      | .error e => .error e
+      | .ok i2p =>
+        match dddmpLevels f permids with
+        | .error e => .error e
+        | .ok levels => .ok (i2p, levels, dedupInts rootids)   -- `roots = set(self.rootids)`
+    | _, _, _ => .error .type     -- unreachable: `_assert_consistent` raised `TypeError`
 
 /-- an entry of `Parser.bdd`: `(level, low, high)` with `None` for a `0` column -/
 structure DddmpEntry where
@@ -194,25 +199,34 @@ def dddmpBody (f : DddmpFile) (i2p : List (Tok × Int)) : Except Err (List (Int 
   | .error e => .error e
   | .ok bdd => if lenNe bdd f.nnodes then .error .assertion else .ok bdd
 
+/-- `i: perm[k]` for an item `(k, i)` of `enumerate(sorted(perm))` -/
+def dddmpPermItem (perm : List (Int × Tok)) (p : Int × Nat) : Except Err (Int × Tok) :=
+  match dictGet perm p.1 with
+  | some var => .ok ((p.2 : Int), var)
+  | none => .error .key
+
+/-- `levels[var]: new_levels[var]` for an item `(var, k)` of `levels` -/
+def dddmpO2nItem (newLevels : List (Tok × Int)) (p : Tok × Int) : Except Err (Int × Int) :=
+  match dictGet newLevels p.1 with
+  | some nk => .ok (p.2, nk)
+  | none => .error .key
+
 /-- the re-indexing at the top of `load`: `(new_levels, old2new)` -/
 def dddmpReindex (levels : List (Tok × Int)) :
-    Except Err (List (Tok × Int) × List (Int × Int)) := do
+    Except Err (List (Tok × Int) × List (Int × Int)) :=
   -- `perm = {k: var for var, k in levels.items()}`
-  let perm := dictOf (levels.map fun (var, k) => (k, var))
+  let perm := dictOf (levels.map fun p => (p.2, p.1))
   -- `perm = {i: perm[k] for i, k in enumerate(sorted(perm))}`
-  let perm2 ← (sortInts (perm.map (·.1))).zipIdx.mapM fun (k, i) =>
-    match dictGet perm k with
-    | some var => pure ((i : Int), var)
-    | none => throw Err.key
-  let perm2 := dictOf perm2
-  -- `new_levels = {var: k for k, var in perm.items()}`
-  let newLevels := dictOf (perm2.map fun (k, var) => (var, k))
-  -- `old2new = {levels[var]: new_levels[var] for var in levels}`
-  let o2n ← levels.mapM fun (var, k) =>
-    match dictGet newLevels var with
-    | some nk => pure (k, nk)
-    | none => throw Err.key
-  pure (newLevels, dictOf o2n)
+  match (sortInts (perm.map (·.1))).zipIdx.mapM (dddmpPermItem perm) with
+  | .error e => .error e
+  | .ok perm2 =>
+    let perm2 := dictOf perm2
+    -- `new_levels = {var: k for k, var in perm.items()}`
+    let newLevels := dictOf (perm2.map fun p => (p.2, p.1))
+    -- `old2new = {levels[var]: new_levels[var] for var in levels}`
+    match levels.mapM (dddmpO2nItem newLevels) with
+    | .error e => .error e
+    | .ok o2n => .ok (newLevels, dictOf o2n)
 
 /-- `for var, level in levels.items(): self.add_var(var, level)` -/
 def dddmpAddVars : List (Tok × Int) → M Unit
